@@ -37,7 +37,7 @@ def thresholds(tier):
 
 def knobs_for(rng):
   return {"depth": rng.choice([0, 0, 1, 1, 2]), "max_children": 2, "p_ff": rng.choice([0.1, 0.3]), "p_split": rng.choice([0.5, 0.8]),
-          "p_struct": 0.35, "p_list": 0.25, "max_sigs": rng.choice([4, 6, 8]), "expr_depth": 2, "falseloop": 1.0, "p_connect": 0.25, "p_nested_field": rng.choice([0, 0.3]), "p_list_field": rng.choice([0, 0.3])}
+          "p_struct": 0.35, "p_list": 0.25, "max_sigs": rng.choice([4, 6, 8]), "expr_depth": 2, "falseloop": 1.0, "p_connect": 0.25, "p_nested_field": rng.choice([0, 0.3]), "p_list_field": rng.choice([0, 0.3]), "p_func": rng.choice([0, 0.3])}
 
 
 # ---------------------------------------------------------------------------
